@@ -35,7 +35,14 @@ static unsigned char *big_alloc (size_t len) {
 }
 #define BIG ((size_t) 1 << 20)
 
-static void newname (void) { snprintf (name, sizeof name, "pvsb-%d-%d", (int) getpid (), gen++); }
+/* unique per run: process ids are recycled quickly on a busy machine, and a run killed by a watchdog leaves its
+ * segment and lock semaphore behind (a stale lock of value 0 would block the next harness that gets the same pid) */
+static long long run_tag (void) {
+	static long long t;
+	if (!t) { struct timespec ts; clock_gettime (CLOCK_REALTIME, &ts); t = (long long) ts.tv_sec * 1000000000LL + ts.tv_nsec; }
+	return t;
+}
+static void newname (void) { snprintf (name, sizeof name, "pvsb-%d-%llx-%d", (int) getpid (), run_tag (), gen++); }
 
 static int hexv (int c) { return c <= '9' ? c - '0' : (c | 32) - 'a' + 10; }
 
@@ -73,7 +80,7 @@ static void drop_all (void) {
 static unsigned char stream_byte (unsigned long long pos) { return (unsigned char) ((pos * 2654435761ULL) >> 13); }
 
 static const char *stress (size_t cap, size_t chunk, unsigned long long total) {
-	char nm[128]; snprintf (nm, sizeof nm, "pvsbx-%d-%d", (int) getpid (), gen++);
+	char nm[128]; snprintf (nm, sizeof nm, "pvsbx-%d-%llx-%d", (int) getpid (), run_tag (), gen++);
 	PShmBuffer *c = p_shm_buffer_new (nm, cap, NULL);
 	if (!c) return "stress setup-failed";
 	pid_t pid = fork ();
@@ -141,7 +148,7 @@ static void *mp_consumer (void *arg) {
 static const char *stress_mp (size_t cap, size_t chunk, unsigned long long total, int P, int C) {
 	static char res[96];
 	if (P < 1 || P > MAXP || C < 1 || C > 8 || chunk < 6 || chunk > cap) return "stress bad-arguments";
-	char nm[128]; snprintf (nm, sizeof nm, "pvsbx-%d-%d", (int) getpid (), gen++);
+	char nm[128]; snprintf (nm, sizeof nm, "pvsbx-%d-%llx-%d", (int) getpid (), run_tag (), gen++);
 	struct mp m; memset (&m, 0, sizeof m);
 	m.cap = cap; m.chunk = chunk; m.P = P;
 	m.per = (unsigned) (total / chunk / (unsigned) P); if (m.per == 0) m.per = 1;
